@@ -285,7 +285,16 @@ def install() -> None:
             for fault in _faults(rec.inject, "raise_in_transform"):
                 if fault.get("f") == rec.rel(file_context.file_path) and fault.get("c") in (None, rec.cur_codemod):
                     raise InjectedFault("injected by harness in transform")
-        return orig_transform(cls, module, results, file_context)
+        out_tree = orig_transform(cls, module, results, file_context)
+        if rec is not None:
+            for fault in _faults(rec.inject, "malformed_tree"):
+                if fault.get("f") == rec.rel(file_context.file_path) and fault.get("c") in (None, rec.cur_codemod):
+                    import libcst as _cst
+
+                    # a statement line nested in a statement line: libcst can build it, but not print it
+                    bad = _cst.SimpleStatementLine(body=[_cst.SimpleStatementLine(body=[_cst.Pass()])])
+                    return out_tree.with_changes(body=[bad, *out_tree.body])
+        return out_tree
 
     libcst_transformer.LibcstResultTransformer.transform = classmethod(transform)
 
